@@ -38,8 +38,9 @@ theorem bisect1D_smallest_evaluated (counts : List Nat) (E : Nat → Rat → Rat
 /-- First feasible candidate, monotone excess, **every** list length and threshold position.
     Candidates `< kth` fail and candidates `≥ kth` meet the limits at maximum height
     (`0 < kth ≤ xr`), the smallest field also fails at minimum height, counts strictly increase,
-    no two candidates have the same excess and the iteration cap is large enough
-    (`xr ≤ 2^max_iter`; 15 iterations cover 32768 candidates).  Then the search returns exactly
+    and the iteration cap is large enough (`xr ≤ 2^max_iter`; 15 iterations cover 32768 candidates);
+    ties in the excess are allowed (since the F32 repair: before it "no two candidates have the same
+    excess" was a hypothesis).  Then the search returns exactly
     candidate `kth`, and its predecessor `kth - 1` was evaluated at maximum height (and fails). -/
 theorem bisect1D_first_feasible (counts : List Nat) (E : Nat → Rat → Rat) (cfg : Cfg) (xr kth : Nat)
     (hu : upperIndex counts cfg.cap = .ok xr)
@@ -48,7 +49,6 @@ theorem bisect1D_first_feasible (counts : List Nat) (E : Nat → Rat → Rat) (c
     (hpos : ∀ i, i ≤ xr → E i cfg.maxH ≠ 0)
     (hlow : 0 < E 0 cfg.minH)
     (hcounts : ∀ i j, i < j → j ≤ xr → counts.getD i 0 < counts.getD j 0)
-    (hdist : ∀ a b, a ≤ xr → b ≤ xr → E a cfg.maxH = E b cfg.maxH → a = b)
     (hfuel : xr ≤ 2 ^ cfg.maxIter) :
     ∃ tr, bisect1D counts E cfg = (.selected kth cfg.maxH .bisection, tr) ∧
       (kth - 1, cfg.maxH) ∈ tr ∧ 0 < E (kth - 1) cfg.maxH := by
@@ -117,7 +117,7 @@ theorem bisect1D_first_feasible (counts : List Nat) (E : Nat → Rat → Rat) (c
       have hl' : s.l = kth - 1 := by omega
       have hinv := inv_final E cfg ls xr i s hl
       have hneg : ∃ kv ∈ s.mem, kv.2 < 0 := ⟨_, hinv.xrIn, hExr⟩
-      obtain ⟨k0, k', hf, hE0', hk0le, hkmem, hk'mem, hEq, hmin, _⟩ :=
+      obtain ⟨k0, k', hf, hE0', hk0le, hkmem, hk'mem, hEq, hmin, hcnt⟩ :=
         finish_selects (counts := counts) hinv (upperIndex_ok hu).1 hneg
       -- kth itself was evaluated (it is the right end) and is feasible
       have hkth_tr : (kth, cfg.maxH) ∈ s.trace ++ [(i, cfg.maxH)] := by
@@ -140,7 +140,12 @@ theorem bisect1D_first_feasible (counts : List Nat) (E : Nat → Rat → Rat) (c
         apply this
         rw [lexLt_iff]; left; exact hcounts kth k' hlt hk'le
       have hk0eq : k0 = kth := by
-        rw [← hk'eq]; exact (hdist k' k0 hk'le hk0le hEq).symm
+        -- equal borehole counts and strictly increasing counts: the same candidate
+        rw [← hk'eq]
+        rcases Nat.lt_trichotomy k0 k' with hlt | heq | hgt
+        · have := hcounts k0 k' hlt hk'le; omega
+        · exact heq
+        · have := hcounts k' k0 hgt hk0le; omega
       refine ⟨s.trace ++ [(i, cfg.maxH)], by rw [hb, hf, hk0eq], ?_, hfail _ (by omega) (by omega)⟩
       have := hinv.memTr _ hinv.lIn
       rw [hl'] at this; exact List.mem_append_left _ this
